@@ -420,6 +420,9 @@ func WalkResume(name string, sut SUT, lts *LTS, seed int64, walks, depth, maxMis
 				continue
 			}
 			for _, e := range es {
+				if len(es) != 1 && w.diverted[x+"|"+k+"|"+e.To] >= 3 {
+					continue // an outcome the implementation produced once but not when asked again: not reliably reachable
+				}
 				if (e.covered || len(es) == 1) && !reach[e.To] {
 					reach[e.To] = true
 					stack = append(stack, e.To)
